@@ -6,8 +6,9 @@ VF_GHOSTS
 void h_hex2uint(void)
 {
   struct c3d *self = (struct c3d *)vf_alloc(sizeof(*self));
-  const char *val = (const char *)vf_alloc(4);
   unsigned int len;
+  __CPROVER_assume(len <= 512);
+  const char *val = (const char *)vf_alloc(len ? len : 1);
   c3d__hex2uint(self, val, len);
   __CPROVER_assert(0, "VACUITY_CANARY");
 }
@@ -15,8 +16,9 @@ void h_hex2uint(void)
 void h_hex2int(void)
 {
   struct c3d *self = (struct c3d *)vf_alloc(sizeof(*self));
-  const char *val = (const char *)vf_alloc(4);
   unsigned int len;
+  __CPROVER_assume(len <= 512);
+  const char *val = (const char *)vf_alloc(len ? len : 1);
   c3d__hex2int(self, val, len);
   __CPROVER_assert(0, "VACUITY_CANARY");
 }
